@@ -281,6 +281,59 @@ func guard(f func()) bool {
 
 var watchdogDelay = 45 * time.Second
 
+// rerunHungCases: evs[i][field] == "hang" marks a case whose call did not return; repeat up to 8 of them alone
+func rerunHungCases(evs []tr.Ev, field string, run func(i int) tr.Ev) {
+	saved := watchdogDelay
+	defer func() { watchdogDelay = saved }()
+	n := 0
+	for i := range evs {
+		if v, _ := evs[i][field].(string); v != "hang" || n >= 8 {
+			continue
+		}
+		n++
+		watchdogDelay = 3 * saved
+		var e tr.Ev
+		if guard(func() { e = run(i) }) {
+			if d, ok := evs[i]["desc"]; ok {
+				e["desc"] = d
+			}
+			e["rerunAlone"] = true
+			evs[i] = e
+		}
+	}
+}
+
+func hasHang(evs []tr.Ev) bool {
+	for _, e := range evs {
+		if e["ev"] == "Hang" {
+			return true
+		}
+	}
+	return false
+}
+
+// rerunAlone repeats, one at a time and with a three times longer bound, the runs in which a call did not return while the
+// machine was busy with many parallel runs; what these repetitions record is what the trace gets (a genuine hang hangs again)
+func rerunAlone(retry []func() []tr.Ev, w *tr.W, s *recSummary) {
+	if len(retry) == 0 {
+		return
+	}
+	saved := watchdogDelay
+	watchdogDelay = 3 * saved
+	atomic.StoreInt32(&hangCount, 0)
+	for i, f := range retry {
+		if i >= 8 {
+			break
+		}
+		evs := f()
+		w.EmitAll(evs)
+		s.Runs++
+		s.Events += len(evs)
+		s.HangsRerun++
+	}
+	watchdogDelay = saved
+}
+
 // number of calls that did not return so far: after a few of them the drivers stop starting new runs
 // (every further hang would cost a full watchdog delay)
 var hangCount int32
@@ -435,6 +488,7 @@ func cmdRecWriter(args []string) int {
 	sem := make(chan struct{}, *par)
 
 	type wcase = wcaseT
+	var retry []func() []tr.Ev
 	var gens []func() []wcase
 	switch *mode {
 	case "c04":
@@ -465,6 +519,19 @@ func cmdRecWriter(args []string) int {
 			}
 			for _, c := range gens[k]() {
 				evs, sinkData := execWriterRun(c.run, c.data)
+				if hasHang(evs) {
+					c := c
+					mu.Lock()
+					retry = append(retry, func() []tr.Ev {
+						e2, sd := execWriterRun(c.run, c.data)
+						if c.run.Key != "" && sd != nil {
+							e2 = append(e2, tr.Ev{"ev": "Out", "key": c.run.Key, "dig": tr.Dig(sd)})
+						}
+						return e2
+					})
+					mu.Unlock()
+					continue
+				}
 				if c.run.Key != "" && sinkData != nil {
 					evs = append(evs, tr.Ev{"ev": "Out", "key": c.run.Key, "dig": tr.Dig(sinkData)})
 				}
@@ -487,6 +554,7 @@ func cmdRecWriter(args []string) int {
 		}(k)
 	}
 	wg.Wait()
+	rerunAlone(retry, w, &s)
 	w.Close()
 	s.Distinct = len(distinct)
 	b, _ := json.MarshalIndent(s, "", " ")
@@ -586,6 +654,32 @@ func enumC01m(seed int64, thorough bool) []func() []wcaseT {
 					run.Parts = []int{run.Parts[0], 70001, 3}
 				}
 				return []wcaseT{{run, gen.Make(shape, run.Seed, size)}}
+			})
+		}
+	}
+	// ... and the matrix transform x data shape with entropy NONE on several blocks (block boundaries inside the data: state carried
+	// from block to block, shapes whose blocks start / end in a particular way such as crlfsplit)
+	for ti, tf := range transformNames {
+		for si, shape := range gen.Shapes {
+			ti, tf, si, shape := ti, tf, si, shape
+			gens = append(gens, func() []wcaseT {
+				g := 1000 + ti*len(gen.Shapes) + si
+				run := &writerRun{Run: g, Mode: "c01m", Seed: seed*59 + int64(g), After: "close", Shape: shape}
+				B := []uint{4096, 16384, 1024}[(ti+si)%3]
+				size := 3*int(B) + int(B)/3 + 16*si
+				run.Size = size
+				run.W = kz.Cfg{Transform: tf, Entropy: []string{"NONE", "HUFFMAN", "FPAQ"}[(ti+2*si)%3], Block: B, Jobs: []uint{1, 2, 4}[(ti+si)%3], Ck: []uint{0, 32, 64}[si%3], Hint: -1}
+				run.RJobs = []uint{1, 3}[si%2]
+				data := gen.Make(shape, run.Seed, size)
+				out := []wcaseT{{run, data}}
+				if tf == "TEXT" {
+					// the text transform exists in two variants selected by the entropy codec (NONE/ANS0/HUFFMAN/RANGE vs the others): both
+					r2 := *run
+					r2.Run = g + 5000
+					r2.W.Entropy = map[string]string{"NONE": "FPAQ", "HUFFMAN": "FPAQ", "FPAQ": "ANS0"}[run.W.Entropy]
+					out = append(out, wcaseT{&r2, data})
+				}
+				return out
 			})
 		}
 	}
